@@ -25,8 +25,48 @@ def geoReq (full : Bool) (mode n a d eps degree edges iters draws : String) : St
     if full then s!"{sa}|{showPairs st.edges}|{showDone st.i iters.toNat!}"
     else s!"{sa}|{showDone st.i iters.toNat!}"
 
+def ofRatMat (M : List (List Rat)) : Nat → Nat → Rat := fun i j => (M.getD i []).getD j 0
+
+def optRat (s : String) : Option Rat := if s == "-" then none else rat? s
+def optInt (s : String) : Option Int := if s == "-" then none else s.toInt?
+
 def answer (toks : List String) : String :=
   match toks with
+  -- whole method: edge list, E and degree array are derived by the model itself
+  | ["geoM", mode, n, a, d, eps, iters, draws] =>
+    let N := n.toNat!
+    let A := ofMat (boolMat a)
+    let md : GeoMode := if mode == "1" then .I else if mode == "2" then .II else .III
+    match geoMethod md (ofIntMat (intMat d)) eps.toInt! N A iters.toNat! (pairs draws) with
+    | none => "raise:IndexError"
+    | some st =>
+      s!"{showBoolMat (toMat st.A N N)}|{showPairs (edgeList N A)}|{(edgeList N A).length}|{showDone st.i iters.toNat!}"
+  | ["crossrewireM", nn, a, nodes1, nodes2, swaps, draws] =>
+    let A := ofMat (boolMat a)
+    let n1 := nats nodes1
+    let n2 := nats nodes2
+    let C := crossBlock A n1 n2
+    let L := onesList n1.length n2.length C
+    let nsw := swapCount ((rat? swaps).getD 0) L.length
+    match randomlyRewireCrossLinks A n1 n2 nsw (pairs draws) with
+    | none => "raise:IndexError"
+    | some (A', st) =>
+      s!"{showBoolMat (toMat A' nn.toNat! nn.toNat!)}|{showBoolMat (toMat C n1.length n2.length)}|{showPairs L}|{nsw}|{showDone st.done nsw}"
+  | ["crosssetM", variant, nn, a, nodes1, nodes2, dens, number, draws] =>
+    let A := ofMat (boolMat a)
+    let n1 := nats nodes1
+    let n2 := nats nodes2
+    let cur := total (crossBlock A n1 n2) n1.length n2.length
+    let k := (if variant == "sparse" then setCountSparse else setCount)
+      (optRat dens) (optInt number) n1.length n2.length cur
+    let R := randomlySetCrossLinks A n1 n2 k (pairs draws)
+    s!"{showBoolMat (toMat R.1 nn.toNat! nn.toNat!)}|{k}|{showDone R.2.2 k.toNat}"
+  | ["edges", nn, es] =>
+    match fromEdges nn.toNat! (pairs es) with
+    | none => "raise:ValueError"
+    | some F => showBoolMat (toMat F nn.toNat! nn.toNat!)
+  | ["dist", nn, p, pp] =>
+    showBoolMat (toMat (distKernel (ofRatMat (ratMat p)) (ofRatMat (ratMat pp))) nn.toNat! nn.toNat!)
   | ["geo", mode, n, a, d, eps, degree, edges, iters, draws] =>
     geoReq true mode n a d eps degree edges iters draws
   | ["geoA", mode, n, a, d, eps, degree, edges, iters, draws] =>
@@ -50,6 +90,11 @@ def answer (toks : List String) : String :=
     match baRun nn.toNat! m.toNat! (nats draws) (baInit nn.toNat! m.toNat!) with
     | none => "raise:IndexError"
     | some st => s!"{showBoolMat (toMat st.A nn.toNat! nn.toNat!)}|{st.j}|{st.it}"
+  | ["baT", nn, m, draws] =>
+    match baRun nn.toNat! m.toNat! (nats draws) (baInit nn.toNat! m.toNat!) with
+    | none => "raise:IndexError"
+    | some st =>
+      s!"{showBoolMat (toMat st.A nn.toNat! nn.toNat!)}|{st.j}|{st.it}|{showNats st.targets}|{showNats ((List.range nn.toNat!).map st.lastChild)}"
   | _ => "bad-request"
 
 def main : IO Unit := runDriver answer
